@@ -1,6 +1,7 @@
 from contracts.workspace_io import IoCall, UpdateAttributeGuard, FetchActiveWorkspace, structural_scan
 from contracts.sessions import ReadOnlyHistories
-CONTRACTS = [IoCall, UpdateAttributeGuard, FetchActiveWorkspace, ReadOnlyHistories]
+from contracts.tree import OpenMode
+CONTRACTS = [IoCall, UpdateAttributeGuard, FetchActiveWorkspace, OpenMode, ReadOnlyHistories]
 EXTRA_CHECKS = [structural_scan]
 
 MANIFEST = {
